@@ -1,6 +1,7 @@
 package sym
 
 import (
+	"time"
 	"fmt"
 	"os"
 	"os/exec"
@@ -32,6 +33,47 @@ func GoEnv() []string {
 	env = append(env, "GOFLAGS=-mod=mod", "GOPROXY=off", "GOSUMDB=off", "GOTOOLCHAIN=local", "CGO_ENABLED=0")
 	return env
 }
+
+// ModEnv is GoEnv for go commands run inside module dir: they read AND WRITE a scratch copy of the module's
+// go.mod/go.sum (-modfile), never the files under the repository: with -mod=mod the go command rewrites go.mod
+// when a harness imports a package of an indirect dependency directly, and nothing under /repo may be written.
+func ModEnv(dir string) []string {
+	modfileMu.Lock()
+	defer modfileMu.Unlock()
+	mf, ok := modfiles[dir]
+	if !ok {
+		// (scratch copies older than a day are leftovers of earlier runs)
+		if old, _ := filepath.Glob(filepath.Join(os.TempDir(), "gosymex-mod-*")); len(old) > 0 {
+			for _, d := range old {
+				if st, e := os.Stat(d); e == nil && time.Since(st.ModTime()) > 24*time.Hour {
+					os.RemoveAll(d)
+				}
+			}
+		}
+		tmp, err := os.MkdirTemp("", "gosymex-mod-")
+		if err == nil {
+			if b, e := os.ReadFile(filepath.Join(dir, "go.mod")); e == nil {
+				mf = filepath.Join(tmp, "go.mod")
+				os.WriteFile(mf, b, 0o644)
+				if sb, e := os.ReadFile(filepath.Join(dir, "go.sum")); e == nil {
+					os.WriteFile(filepath.Join(tmp, "go.sum"), sb, 0o644)
+				}
+			}
+		}
+		modfiles[dir] = mf
+	}
+	env := os.Environ()
+	flags := "GOFLAGS=-mod=mod"
+	if mf != "" {
+		flags += " -modfile=" + mf
+	}
+	return append(env, flags, "GOPROXY=off", "GOSUMDB=off", "GOTOOLCHAIN=local", "CGO_ENABLED=0")
+}
+
+var (
+	modfileMu sync.Mutex
+	modfiles  = map[string]string{}
+)
 
 // Overlay maps virtual file paths to real files under verifRoot.
 type Overlay struct {
@@ -75,7 +117,7 @@ func BuildOverlay(verifRoot string, m Module, models []string) (*Overlay, error)
 		mdir := filepath.Join(verifRoot, "models", filepath.FromSlash(model))
 		cmd := exec.Command("go", "list", "-f", "{{.Dir}}|{{.Name}}", model)
 		cmd.Dir = m.Dir
-		cmd.Env = GoEnv()
+		cmd.Env = ModEnv(m.Dir)
 		out, err := cmd.Output()
 		if err != nil {
 			return nil, fmt.Errorf("go list %s: %v", model, err)
@@ -151,7 +193,7 @@ func Load(verifRoot string, m Module, models []string, extraPkgs []string) (*Pro
 		}
 		overlay[v] = b
 	}
-	cfg := &packages.Config{Mode: packages.LoadAllSyntax, Dir: m.Dir, Overlay: overlay, Env: GoEnv()}
+	cfg := &packages.Config{Mode: packages.LoadAllSyntax, Dir: m.Dir, Overlay: overlay, Env: ModEnv(m.Dir)}
 	// only the packages the caller needs are loaded (harness files of other packages stay in the overlay
 	// but are not type-checked: some of them need library models that this load may not use)
 	pats := append([]string{}, extraPkgs...)
